@@ -1,5 +1,7 @@
 import CkbVerif.Lemmas.Selector
+import CkbVerif.Lemmas.SelectorOrder
 import CkbVerif.Lemmas.Template
+import CkbVerif.Lemmas.Assembler
 
 /-!
 # C13 — every block template handed to miners would be accepted by the node itself
@@ -30,19 +32,53 @@ the harness dumps and compared with the harness's own evaluation over the real
   its pooled child — C11's finding F3) where the packaged set exceeds the limit (finding F8,
   reproduced on the real node by the harness: the node rejects its own template).
 
-NOT proved: `selected_parents_first` (every parent precedes its child in the output). Full statement:
-  `LinksOk v → LinksExact v → AggExact v → ∀ i j, out[j].id ∈ v.anc out[i].id → j < i`.
-  Inside a package the order comes from sorting by the (modified) `ancestors_count`; the proof needs
-  the exactness of the modified counts of never-failed entries plus the fact that an entry that
-  failed admission (and everything depending on it) can never be packaged later; that argument is not
-  formalised. The order is checked on every real selection and template by the implementation-only
-  oracle and by exact comparison with the model's output; `parents_first_fails_when_stale` shows it is
-  false when the counts are stale (also observed on the real node).
+* `selected_parents_first`      (hypotheses `LinksOk v`, `LinksExact v`, `AggExact v`) in the returned
+                                list no transaction appears before one of its in-pool ancestors;
+  `selected_topological_order`  together with `selected_ancestor_closed`: the list is duplicate-free and
+                                every in-pool ancestor of the transaction at position `i` sits at some
+                                position `j < i` — a valid topological order of an ancestor-closed set.
+  Inside a package the order comes from sorting by the (modified) `ancestors_count`; the proof
+  (`Lemmas/SelectorOrder.lean`, second loop invariant `Inv2`) shows that every never-failed occupant
+  of `modified_entries` carries EXACT aggregates w.r.t. `fetched_txs`, that an entry which failed
+  admission (and everything depending on it) can never be packaged later, hence that every member of an
+  admitted package is exact, and that exact counts strictly increase along ancestor links.
+  `LinksExact` (acyclic links; `desc` is the inverse of `anc`) and `AggExact` (maintained aggregates =
+  recomputation) cannot be dropped: `parents_first_fails_when_stale` shows the order is false when the
+  counts are stale (F8; also observed on the real node).
 
-Block-level validity of the template (cellbase, DAO, epoch, target, extension, uncles, total
-size with cellbase/uncles/proposals) is decided by the implementation-only oracle of the harness (a
-copy node's full verification of every fetched template), not by theorems in this file, except for
-the `TemplateSize` bookkeeping (`template_size_le_max`, `Model/Template.lean`).
+Block level (`Model/Assembler.lean`: `prepare_uncles`, `package_proposals`, the five update paths
+with content, the sealed block as the verifier model of C03 sees it; `Lemmas/Assembler.lean`):
+
+* `prepared_uncles_rules`                the output of `prepare_uncles` has at most `max_uncles_num` elements with
+                                         distinct hashes, each a candidate of the epoch and target of the block
+                                         BEING ASSEMBLED (`next_epoch_ext(tip)`), with number < the block's number,
+                                         neither on the main chain nor embedded as an uncle already;
+* `prepared_uncles_pass_uncles_verifier` on such a list the model of `UnclesVerifier` (`Rules.unclesCheck`, C03)
+                                         answers `none`, given the candidates are blocks the node processed
+                                         (`CandsOk`) and the snapshot is the verifier's chain view (`SnapOk`);
+* `uncles_rejected_when_tip_epoch_used`  at an epoch's last block, selecting by the TIP's epoch (instead of the
+                                         stored epoch of the block being assembled) yields a template the uncle
+                                         verifier rejects (`uncleEpoch`) — the selection parameter matters;
+* `packaged_proposals_rules`             `package_proposals`: at most `limit` ids, duplicate-free, each pending,
+                                         none proposed by one of the template's uncles;
+* `template_passes_block_verifier_partial` after `update_blank` on any tip followed by ANY sequence of
+                                         `update_full/uncles/proposals/transactions/blank`, the sealed template
+                                         passes the modelled non-contextual `BlockVerifier` (proposals limit,
+                                         block bytes, all `CellbaseVerifier` clauses, transaction / proposal
+                                         duplicates) and `UnclesVerifier`, and its cycles are within
+                                         `max_block_cycles` — composed from `selected_no_duplicates`,
+                                         `selected_within_limits`, `template_size_le_max` (through the projection
+                                         `toTSt_astep`) and the two theorems above.
+  PARTIAL: hypotheses per update (`AOp.Ok`): pool views with `LinksOk` and `AggGe` (F8 otherwise), pending ids
+  distinct, the cellbase is not a pool entry, candidates are processed blocks, a blank template with
+  `max_uncles_num` uncles fits, the configured / reward-target locks use an enabled hash type. Still decided only
+  by the implementation-only oracle (a copy node's full verification of every fetched template): header stage
+  (PoW, timestamp/median time), merkle roots (recomputed by sealing), `NonContextualBlockTxsVerifier` and
+  `BlockTxsVerifier` (script execution, since, capacity; that the recorded cycles are the consumed ones),
+  transaction resolution in block order (`calc_dao`'s re-check is the abstract `keep`), `TwoPhaseCommitVerifier`
+  (that Proposed pool entries are inside the window is C12/C20), `EpochVerifier` (epoch/target EQUAL the
+  verifier's: `next_epoch_ext` is shared code, C07), `DaoHeaderVerifier` (C06), `RewardVerifier` (C06),
+  `BlockExtensionVerifier` (C19).
 -/
 
 namespace CkbVerif.C13
@@ -83,6 +119,42 @@ theorem selected_within_limits (v : View) (sl cl : Nat) (hL : LinksOk v) (hA : A
   rw [h.sizeEq, h.cyclesEq] at this
   exact this
 
+/-- Parents first: in the returned list no transaction appears before (or at the position of) one
+    of its in-pool ancestors. Hypotheses: consistent links (`LinksOk`), acyclic links with `desc` the
+    exact inverse of `anc` (`LinksExact`), maintained aggregates equal to the recomputation
+    (`AggExact`). For every size limit, cycles limit and tie rank. -/
+theorem selected_parents_first (v : View) (sl cl : Nat) (hL : LinksOk v) (hX : LinksExact v)
+    (hA : AggExact v) :
+    ∀ (i j : Nat) (hi : i < (txsToCommit v sl cl).out.length) (hj : j < (txsToCommit v sl cl).out.length),
+      ((txsToCommit v sl cl).out[j]).id ∈ v.anc ((txsToCommit v sl cl).out[i]).id → j < i := by
+  have h := Inv.final (sl := sl) (cl := cl) hL
+  have h2 := Inv2.final (sl := sl) (cl := cl) hL hX hA
+  intro i j hi hj hin
+  have hord := List.pairwise_iff_getElem.mp h2.order
+  rcases Nat.lt_trichotomy j i with hlt | heq | hgt
+  · exact hlt
+  · subst heq
+    have hg := h.outGood _ (List.getElem_mem hi)
+    exact absurd hin (hX.1 _ (hasProposed_mem_ids hg.1))
+  · exact absurd hin (hord i j hi hj hgt)
+
+/-- The returned list is a valid topological order of an ancestor-closed set: no duplicates, and
+    every in-pool ancestor of the transaction at position `i` is at some position `j < i`. -/
+theorem selected_topological_order (v : View) (sl cl : Nat) (hL : LinksOk v) (hX : LinksExact v)
+    (hA : AggExact v) :
+    ((txsToCommit v sl cl).out.map (·.id)).Nodup ∧
+    ∀ (i : Nat) (hi : i < (txsToCommit v sl cl).out.length),
+      ∀ a ∈ v.anc ((txsToCommit v sl cl).out[i]).id,
+        ∃ (j : Nat) (hj : j < (txsToCommit v sl cl).out.length), j < i ∧ ((txsToCommit v sl cl).out[j]).id = a := by
+  refine ⟨selected_no_duplicates v sl cl hL, ?_⟩
+  intro i hi a ha
+  have hc := (selected_ancestor_closed v sl cl hL _ (List.getElem_mem hi)).2 a ha
+  obtain ⟨x, hx, hxa⟩ := List.mem_map.mp hc.1
+  obtain ⟨j, hj, hjx⟩ := List.getElem_of_mem hx
+  refine ⟨j, hj, ?_, by rw [hjx, hxa]⟩
+  apply selected_parents_first v sl cl hL hX hA i j hi hj
+  rw [hjx, hxa]; exact ha
+
 /-! ## concrete pools -/
 
 /-- entry with key computed from the entry -/
@@ -103,6 +175,22 @@ example : LinksOk okPool ∧ LinksExact okPool ∧ AggGe okPool ∧ AggExact okP
 example : (txsToCommit okPool 1000 1000).out.map (·.id) = [1, 2, 4, 3] := by decide
 example : (txsToCommit okPool 250 1000).out.map (·.id) = [1, 2] := by decide
 example : (txsToCommit okPool 1000 25).out.map (·.id) = [1, 2] := by decide
+
+/-- a pool where a package is built from MODIFIED entries (after 1 is packaged, 2 and 3 sit in
+    `modified_entries` with reduced counts), an admission fails and is recorded in `failed_txs`
+    (the package 4 → 5 does not fit; 4 alone is packaged afterwards), and the
+    hypotheses of `selected_parents_first` hold: the order theorem applies non-vacuously -/
+def orderPool : View := View.ofLinks
+  [ mk 1 100 10 9000 1 100 10 9000 true [] [2, 3],
+    mk 2 100 10 100 2 200 20 9100 true [1] [6],
+    mk 3 100 10 100 2 200 20 9100 true [1] [6],
+    mk 6 100 10 8000 4 400 40 17200 true [2, 3] [],
+    mk 4 300 10 50 1 300 10 50 true [] [5],
+    mk 5 300 10 7000 2 600 20 7050 true [4] [] ] (fun id => id)
+
+example : LinksOk orderPool ∧ LinksExact orderPool ∧ AggExact orderPool := by decide
+example : (txsToCommit orderPool 900 1000).out.map (·.id) = [1, 2, 3, 6, 4] ∧
+    (txsToCommit orderPool 900 1000).failed = [5] := by decide
 
 /-- the pool `PoolMap::add_entry` leaves behind when a reorg re-adds grand-parent 1 and parent 2
     behind the pooled child 3 (C11's F3): 3's aggregates include 2 but miss 1 -/
@@ -177,5 +265,143 @@ open CkbVerif.Template in
 theorem template_oversize_when_selection_overshoots :
     (runOps ⟨1000, 228, 600, 0, 0, 0, 0, 0, 0, 600⟩ [.full 2 (fun l => l + 100)]).actual = 1100 := by
   decide
+
+
+/-! ## block level: uncles, proposals, and the sealed template against the verifier model of C03 -/
+
+open CkbVerif.Assembler CkbVerif.Rules in
+/-- `prepare_uncles`: at most `max_uncles_num` uncles, distinct hashes, every one a candidate with the
+    target and epoch number of the block being assembled (`en`/`tg` are those of `next_epoch_ext(tip)`),
+    number below the block's, neither a main-chain block nor embedded as an uncle before. -/
+theorem prepared_uncles_rules (cfg : Cfg) (cx : Cx) (snap : Snap) (en tg : Nat) (cands : List Uncle)
+    (hc : CandsOk cfg cx cands) :
+    (prepareUncles cfg.maxUncles snap en tg cands).length ≤ cfg.maxUncles ∧
+    ((prepareUncles cfg.maxUncles snap en tg cands).map (·.id)).Nodup ∧
+    ∀ u ∈ prepareUncles cfg.maxUncles snap en tg cands,
+      u ∈ cands ∧ u.target = tg ∧ u.epochNumber = en ∧ u.number < snap.tipNumber + 1 ∧
+      snap.isMain u.id = false ∧ snap.isUncle u.id = false := by
+  obtain ⟨hl, hp⟩ := prepareUncles_spec cfg cx snap en tg cands hc
+  refine ⟨hl, (pickedFrom_nodup hp).1, ?_⟩
+  intro u hu
+  obtain ⟨pre, h1, h2, h3, h4, h5, h6, _⟩ := pickedFrom_mem hp u hu
+  exact ⟨h1, h2, h3, h4, h5, h6⟩
+
+open CkbVerif.Assembler CkbVerif.Rules in
+/-- The uncle verifier model of C03 accepts what `prepare_uncles` selects, for every block on this tip
+    whose (verifier-computed) epoch number and target are the ones the assembler selected by. -/
+theorem prepared_uncles_pass_uncles_verifier (cfg : Cfg) (cx : Cx) (snap : Snap) (en tg : Nat)
+    (cands : List Uncle) (b : Blk) (hs : SnapOk snap cx) (hc : CandsOk cfg cx cands)
+    (hbn : b.number = snap.tipNumber + 1) (hbe : b.expEpoch.number = en) (hbt : b.expTarget = tg)
+    (hbu : b.uncles = prepareUncles cfg.maxUncles snap en tg cands) :
+    unclesCheck cfg cx b = none := by
+  obtain ⟨hl, hp⟩ := prepareUncles_spec cfg cx snap en tg cands hc
+  unfold unclesCheck
+  split
+  · rfl
+  · have hn : ¬ (b.number == 0) = true := by simp [hbn]
+    have hlen : ¬ (b.uncles.length > cfg.maxUncles) := by rw [hbu]; omega
+    rw [if_neg hn, if_neg hlen, hbu]
+    have := unclesLoop_of_picked cfg cx b snap en tg cands hs hc hbn hbe hbt [] _ (by simp) hp
+    simpa using this
+
+namespace UncleEx
+open CkbVerif.Assembler CkbVerif.Rules
+
+/-- chain 0..5 (ids = numbers), no embedded uncles; epochs of 6 blocks: the tip (5) is the LAST block
+    of epoch 0, the block being assembled (6) is the first of epoch 1 (same target: permanent difficulty) -/
+def cx : Cx := { parentNumber := 5, mainNum := fun h => if h < 6 then some h else none, uncleNum := fun _ => none, chain := [] }
+def snap : Snap := ⟨5, fun h => (cx.mainNum h).isSome, fun h => (cx.uncleNum h).isSome⟩
+/-- a sibling of block 5 (epoch 0, old target 7) and nothing else -/
+def cands : List Uncle := [{ id := 105, parent := 4, number := 5, epochNumber := 0, target := 7 }]
+def blk (us : List Uncle) : Blk := { number := 6, expEpoch := { number := 1 }, expTarget := 7, uncles := us }
+end UncleEx
+
+open UncleEx CkbVerif.Assembler CkbVerif.Rules in
+/-- At an epoch boundary the selection must use the epoch of the block being assembled: with the
+    TIP's epoch (0) the old-epoch candidate is selected and the uncle verifier rejects the
+    template; with the stored epoch of the block being assembled (1) nothing is selected and
+    it passes. (Seeded change C13/m3 is exactly this; the node harness catches it on real code.) -/
+theorem uncles_rejected_when_tip_epoch_used :
+    unclesCheck {} cx (blk (prepareUncles 2 snap 0 7 cands)) = some .uncleEpoch ∧
+    unclesCheck {} cx (blk (prepareUncles 2 snap 1 7 cands)) = none ∧
+    (prepareUncles 2 snap 0 7 cands).length = 1 := by decide
+
+open CkbVerif.Assembler CkbVerif.Rules in
+/-- `package_proposals(limit, uncles)` -/
+theorem packaged_proposals_rules (limit : Nat) (pending : List Nat) (uncles : List Uncle) (h : pending.Nodup) :
+    (packageProposals limit pending uncles).length ≤ limit ∧
+    (packageProposals limit pending uncles).Nodup ∧
+    ∀ id ∈ packageProposals limit pending uncles, id ∈ pending ∧ ∀ u ∈ uncles, id ∉ u.proposals :=
+  ⟨packageProposals_length _ _ _, packageProposals_nodup _ _ _ h, fun _ hid => packageProposals_mem hid⟩
+
+open CkbVerif.Assembler CkbVerif.Rules in
+/-- PARTIAL (see the file header for what stays oracle-only). Start from `update_blank` on any tip (in
+    any previous state `s`), apply ANY sequence of the five update paths (tip changes included), each
+    update satisfying its hypotheses `AOp.Ok` in the state it meets; seal the resulting template. Then
+    the modelled non-contextual `BlockVerifier` and the modelled `UnclesVerifier` accept it, and its
+    cycles are within `max_block_cycles`. -/
+theorem template_passes_block_verifier_partial (cfg : Cfg) (U : Nat) (cxOf : Tip → Cx) (s : ASt)
+    (tip : Tip) (cands : List Uncle) (ops : List AOp)
+    (h0 : (AOp.blank tip cands).Ok cfg U cxOf s)
+    (hops : OkRun cfg U cxOf (astep cfg U s (.blank tip cands)) ops) :
+    let s' := arun cfg U (astep cfg U s (.blank tip cands)) ops
+    nonContextualCheck cfg (sealBlock U s') = none ∧
+    unclesCheck cfg (cxOf s'.tip) (sealBlock U s') = none ∧
+    (sealBlock U s').cycles ≤ cfg.maxCycles :=
+  ((AInv.blank s tip cands h0).run ops hops).sealed
+
+namespace AsmEx
+open CkbVerif.Assembler CkbVerif.Rules
+
+def cfg : Cfg := { maxUncles := 2, maxProposals := 3, maxBytes := 1500, maxCycles := 25 }
+/-- chain 0..5 (ids = numbers), no embedded uncles -/
+def cx : Cx := { parentNumber := 5, mainNum := fun h => if h < 6 then some h else none, uncleNum := fun _ => none, chain := [] }
+def tip : Tip :=
+  { snap := ⟨5, fun h => (cx.mainNum h).isSome, fun h => (cx.uncleNum h).isSome⟩, epochNumber := 1, target := 7,
+    base := 600, cbOutputs := 1, cbId := 1000, cbWitnessOk := true, cbLockOk := true }
+/-- a sibling of block 4, its child (parent = the candidate before it: an embedded parent), and a
+    candidate of the previous epoch -/
+def cands : List Uncle :=
+  [ { id := 104, parent := 3, number := 4, epochNumber := 1, target := 7, proposals := [12] },
+    { id := 105, parent := 104, number := 5, epochNumber := 1, target := 7 },
+    { id := 106, parent := 4, number := 5, epochNumber := 0, target := 7 } ]
+def ops : List AOp :=
+  [ .full [11, 12, 13] okPool (fun _ => true), .uncles cands, .proposals [11, 12, 13, 14, 15],
+    .txs okPool (fun e => e.id != 3) ]
+def start : ASt := { tip := tip, t := {} }
+
+theorem candsOk : CandsOk cfg cx cands := by
+  refine ⟨by decide, by decide, ?_, ?_, by decide⟩
+  · intro u hu n hn
+    simp only [cands, List.mem_cons, List.not_mem_nil, or_false] at hu
+    rcases hu with rfl | rfl | rfl <;> simp [cx] at hn <;> simp <;> omega
+  · intro u hu n hn
+    simp [cx] at hn
+
+theorem tipOk : TipOk cfg 228 tip cx :=
+  ⟨⟨rfl, fun _ => rfl, fun _ => rfl⟩, by decide, by decide, rfl, rfl⟩
+
+end AsmEx
+
+open AsmEx CkbVerif.Assembler CkbVerif.Rules in
+/-- non-vacuity of `template_passes_block_verifier_partial`: the hypotheses hold for a run that uses
+    every update path (two uncles, the second a child of the first; the old-epoch candidate is
+    dropped; proposals cut at the limit and minus the uncle's; the cycles limit binds; `calc_dao`
+    drops an entry), and the sealed template is non-trivial -/
+example :
+    (AOp.blank tip cands).Ok cfg 228 (fun _ => cx) start ∧
+    OkRun cfg 228 (fun _ => cx) (astep cfg 228 start (.blank tip cands)) ops := by
+  refine ⟨⟨tipOk, candsOk⟩, ?_⟩
+  have hpool : LinksOk okPool ∧ AggGe okPool ∧ (1000 : Nat) ∉ okPool.ids := by decide
+  refine ⟨⟨by decide, hpool.1, hpool.2.1, hpool.2.2⟩, candsOk, ?_, ⟨hpool.1, hpool.2.1, hpool.2.2⟩, trivial⟩
+  show [11, 12, 13, 14, 15].Nodup
+  decide
+
+open AsmEx CkbVerif.Assembler CkbVerif.Rules in
+example :
+    let s' := arun cfg 228 (astep cfg 228 start (.blank tip cands)) ops
+    s'.t.uncles.map (·.id) = [104, 105] ∧ s'.t.proposals = [11, 13, 14] ∧ s'.t.txs.map (·.id) = [1, 2] ∧
+    (sealBlock 228 s').bytes = 1286 ∧ nonContextualCheck cfg (sealBlock 228 s') = none ∧
+    unclesCheck cfg cx (sealBlock 228 s') = none := by decide
 
 end CkbVerif.C13
